@@ -160,7 +160,13 @@ def gen(rng, tier, i):
             c = rng.choice(t)
             r = rng.random()
             if r < 0.4: p.cycle(say(c, 'do hb me 1'))
-            elif r < 0.7: p.cycle(say(c, 'do sc me hb ' + bomb_script('hb').replace(';', ',') + ';hb me 1'))
+            elif r < 0.7:
+                # a heart beat that fails - sometimes after switching itself off first (then nothing is left to switch off,
+                # and the driver must still forget which heart beat was running)
+                pre = 'hb me 0,' if rng.random() < 0.4 else ''
+                p.cycle(say(c, 'do sc me hb ' + pre + bomb_script('hb').replace(';', ',') + ';hb me 1'))
+                if pre and rng.random() < 0.7:
+                    p.cycle(tick()); p.cycle(say(c, 'do hb me 1')); p.cycle(say(rng.choice(t), 'do ' + bomb_script('cmd')))
             else: p.cycle(say(c, 'do hb me 0'))
         elif a == 'co':
             c = rng.choice(t)
